@@ -55,10 +55,13 @@ let parse (t : string list) : op option =
   | ["bp"; p] -> Some (OBytesPrefix (bs p))
   | _ -> None
 (* "nosnap": the code as first found (a read transaction reads whatever is committed at each read);
-   "noclamp": the batchIterator as first found (Seek / Reset below the range's start leave the range) *)
+   "noclamp": the batchIterator as first found (Seek / Reset below the range's start leave the range; no merging);
+   "nomerge": the levelIterator before the merging repair (a write transaction's iterator yields the committed run
+   followed by the run of its net puts) *)
 let step_fn =
   if Array.length Sys.argv > 1 && Sys.argv.(1) = "nosnap" then step_unrepaired
   else if Array.length Sys.argv > 1 && Sys.argv.(1) = "noclamp" then step_seek_unrepaired
+  else if Array.length Sys.argv > 1 && Sys.argv.(1) = "nomerge" then step_iter_unmerged
   else step
 let () =
   let st = ref init_state in
